@@ -376,6 +376,10 @@ class Gen:
             items = [self.valid(arg, depth + 1) if arg is not None else self.arbitrary(depth + 2) for _ in range(n)]
             if origin in ('set', 'MutableSet', 'Set', 'frozenset') and arg is None:
                 items = [self.rhashable() for _ in range(n)]
+            elif (arg is None or arg == 'any') and r.random() < 0.3:
+                # neighbours of RELATED runtime types (a bool after an int, an int after a float): each element is serialised
+                # by its own type, whatever its neighbour was
+                items = list(r.choice([[0, True], [3, False, 4], [True, 1, 1.0], [2.5, 2, True], [1, 1.0], [False, 0, 'a', 1]]))
             return items if r.random() < 0.6 else tuple(items)
         if k == 'tuple':
             items = [self.valid(a, depth + 1) for a in v]
@@ -1365,6 +1369,61 @@ def scenarios_unionnorm(seed, n):
             return r.choice(names)
         members = [mem(0) for _ in range(r.randint(1, 5))]
         out.append({'id': f'un{seed}:{i}', 'op': 'unionnorm', 'members': members, 'optional': r.random() < 0.3, 'stream': 'unionnorm'})
+    return out
+
+
+def scenarios_boost(seed, n, op='from_data'):
+    """small families that random generation reaches too rarely (each was the home of a seeded change that a shifted random
+    stream once un-caught): (a) every element converts but the collection's CONSTRUCTOR refuses the converted elements (a set of
+    lists, unhashable dict keys); (b) several unknown keys of mutually unorderable kinds next to a struct / dataclass;
+    (c) a renamed field given under BOTH its renamed key and its Python name, in a class without any alias"""
+    g = random.Random(seed)
+    out = []
+    for i in range(n):
+        r = random.Random(g.randrange(1 << 62))
+        decl = {'enums': [], 'subs': [], 'classes': []}
+        fam = r.choice('abc')
+        if fam == 'a':
+            ty, v = r.choice([({'seq': ['set', {'seq': ['list', 'int']}]}, [[1, 2], [3]]), ({'seq': ['frozenset', {'map': ['dict', ['str', 'int']]}]}, [{'a': 1}]),
+                              ({'map': ['dict', [{'seq': ['list', 'int']}, 'int']]}, {(1, 2): 3}), ({'seq': ['set', {'seq': ['set', 'int']}]}, [[1], [2, 3]]),
+                              ({'seq': ['list', {'seq': ['set', {'seq': ['list', 'str']}]}]}, [[['a']], []])])
+            wire = ENC.enc(v)
+            if r.random() < 0.5:
+                name = f'Bo{seed % 1000}x{i}'
+                decl['classes'].append({'name': name, 'fields': [{'name': 'items', 'ty': ty}, {'name': 'n', 'ty': 'int', 'default': {'value': {'i': '0'}}}], 'opts': {}, 'hook': None})
+                ty, wire = {'cls': [name, []]}, {'d': [['items', wire]]}
+        elif fam == 'b':
+            extras = r.choice([[3, 'zz'], [None, 'k', 2.5], [(1, 2), 'x'], [True, 'a', 7], ['b', 'a']])
+            data = {'x': r.choice([1, 'bad']), 'my_field': 2}
+            for k in extras:
+                data[k] = r.choice([1, 'u', None])
+            if r.random() < 0.5:
+                ty = {'struct': [['x', 'int'], ['my_field', 'int']]}
+            else:
+                name = f'Bo{seed % 1000}x{i}'
+                decl['classes'].append({'name': name, 'fields': [{'name': 'x', 'ty': 'int'}, {'name': 'my_field', 'ty': 'int'}], 'opts': {}, 'hook': None})
+                ty = {'cls': [name, []]}
+            if r.random() < 0.4:
+                ty, data = {'seq': ['list', ty]}, [data, {'x': 1, 'my_field': 2}]
+            wire = ENC.enc(data)
+        else:
+            name = f'Bo{seed % 1000}x{i}'
+            style = r.choice(['camel', 'pascal', 'kebab', 'scream'])
+            renamed = {'camel': 'myField', 'pascal': 'MyField', 'kebab': 'my-field', 'scream': 'MY_FIELD'}[style]
+            how = r.choice(['class', 'class_in', 'field'])
+            f = {'name': 'my_field', 'ty': 'int'}
+            opts = {}
+            if how == 'class':
+                opts['rename'] = style
+            elif how == 'class_in':
+                opts['in_rename'] = [style]
+            else:
+                f['spec'] = {'rename': renamed}
+            decl['classes'].append({'name': name, 'fields': [f, {'name': 'x', 'ty': 'int', 'default': {'value': {'i': '0'}}}], 'opts': opts, 'hook': None})
+            ty = {'cls': [name, []]}
+            data = r.choice([{renamed: 1, 'my_field': 2}, {'my_field': 2, renamed: 1}, {renamed: 1}, {'my_field': 2}, {renamed: 1, 'my_field': 2, 'x': 5}])
+            wire = ENC.enc(data)
+        out.append({'id': f'bo{seed}:{i}', 'decl': decl, 'op': op, 'ty': ty, 'val': wire, 'spell': r.randrange(2), 'stream': 'boost-' + fam})
     return out
 
 
